@@ -223,6 +223,9 @@ class CollectionsStub(Ext):
         from pyvc.builtins import b_ordered_dict
         if name == "OrderedDict":
             return b_ordered_dict
+        if name == "deque":
+            from pyvc.builtins import b_list
+            return b_list
         if name == "namedtuple":
             def nt(eng, tname, fields):
                 names = eng.iterate(fields)
